@@ -8,6 +8,7 @@
      natural epoch (GetEpochForBlock) must be the epoch of the header on its own chain. *)
 open Model
 open Vutil
+(* ModelSkip's definitions are extracted into the same model.ml *)
 
 let lst s = if s = "-" || s = "" then [] else String.split_on_char ';' s
 let nat_of_hex s = nat_of_int (int_of_n (n_of_hex s))
@@ -27,6 +28,17 @@ let dump (m : (n * (nat * n) list) list) =
     hex_of_n e ^ ":" ^ String.concat "+" (List.map (fun (b, d) ->
       Printf.sprintf "%x.%s" (int_of_nat b) (hex_of_n d)) l)) m)
 
+(* split "<res>/ME=..." style tokens *)
+let split_slash s = String.split_on_char '/' s
+
+let tok_of_out pre hang = function
+  | Ok l -> List.map (fun d -> pre ^ "ok." ^ hex_of_n d) l
+  | Err c -> [pre ^ (if int_of_nat c = 1 then "err.epoch" else if int_of_nat c = 2 then "err.hash" else "err.other")]
+  | Panic -> ["panic"]
+  | OutOfFuel -> hang := true; ["hang"]
+
+let is_err pre o = String.length o >= String.length pre + 4 && String.sub o 0 (String.length pre + 4) = pre ^ "err."
+
 let check inp obs =
   match split_ws inp with
   | ["tree"; elen; bl; al; dl; ql] ->
@@ -40,90 +52,149 @@ let check inp obs =
       | [e; d] -> (a.[0], n_of_hex e, n_of_hex d) | _ -> fail "bad db %s" a) (lst dl) in
     let dbe = List.rev (List.filter_map (fun (k, e, d) -> if k = 'e' then Some (e, d) else None) dbs) in
     let dbc = List.rev (List.filter_map (fun (k, e, d) -> if k = 'c' then Some (e, d) else None) dbs) in
-    let st = ref { e_tree = t; e_len = n_of_hex elen; ned = []; ncd = []; dbe; dbc } in
+    (* the announcements are handled before the database entries are written, but the model's
+       announce_* do not look at dbe/dbc, so the initial state may carry them already *)
+    let xs = ref (x_init t (n_of_hex elen) dbe dbc) in
     let toks = ref [] in
     for k = 1 to nb do
       List.iter (fun (kind, b, d) -> if b = k then begin
-        st := (if kind = 'e' then announce_epoch !st (nat_of_int b) d else announce_config !st (nat_of_int b) d);
+        xs := (if kind = 'e' then x_announce_epoch !xs (nat_of_int b) d else x_announce_config !xs (nat_of_int b) d);
         toks := "a=ok" :: !toks end) anns
     done;
-    let st = !st in
-    toks := ("MC=" ^ dump st.ncd) :: ("ME=" ^ dump st.ned) :: !toks;
+    toks := ("MC=" ^ dump (!xs).x_s.ncd) :: ("ME=" ^ dump (!xs).x_s.ned) :: !toks;
     let pre_toks = List.rev !toks in
+    let npre = List.length pre_toks in
     let fuel = enough_fuel t in
     let tags = Hashtbl.create 16 in
     let tag x = Hashtbl.replace tags x () in
     let nontrivial = ref false in
     let hang = ref false in
-    (* per query: (model acceptable tokens, spec check function on the observed token) *)
-    let queries = List.map (fun q -> match String.split_on_char ',' q with
-      | [k; e; h] ->
-        let h = parse_hdr h in
-        if not (valid_hdr t h) then fail "C26: bad header in %s" q;
-        let nat = (e = "n") || k = "g" in
-        let ep = if nat then epoch_of t st.e_len h else n_of_hex e in
-        let pre = if nat && k <> "g" then hex_of_n ep ^ "@" else "" in
-        tag (match h with Imp _ -> "hdr-imported" | Fresh _ -> "hdr-not-imported");
-        let tok_of = function
-          | Ok l -> List.map (fun d -> pre ^ "ok." ^ hex_of_n d) l
-          | Err c -> [pre ^ (if int_of_nat c = 1 then "err.epoch" else if int_of_nat c = 2 then "err.hash" else "err.other")]
-          | Panic -> ["panic"]
-          | OutOfFuel -> hang := true; ["hang"] in
-        let foreign m = (match alookup m ep with
-          | Some entries -> List.exists (fun (b, _) -> not (on_chain t h b)) entries
-          | None -> false) in
-        (match k with
-         | "g" -> tag "q-epoch"; (["ep." ^ hex_of_n ep], (fun o -> o = "ep." ^ hex_of_n ep))
-         | "e" ->
-           let r = get_epoch_data fixed fuel st ep h in
-           let sp = spec_epoch_data st ep h in
-           if foreign st.ned then nontrivial := true;
-           (match r with
-            | Ok l -> tag (if List.length l > 1 then "e-ok-ambiguous" else "e-ok");
-                      if foreign st.ned then tag "e-ok-with-competing-fork"
-            | Err c -> tag (if int_of_nat c = 1 then "e-err-epoch-not-in-memory" else "e-err-not-on-own-fork")
-            | _ -> tag "e-model-hang");
-           (tok_of r, (fun o -> match sp with
-              | Some l -> List.mem o (List.map (fun d -> pre ^ "ok." ^ hex_of_n d) l)
-              | None -> String.length o >= String.length pre + 4
-                        && String.sub o 0 (String.length pre + 4) = pre ^ "err."))
-         | "c" ->
-           let r = get_config fixed fuel st ep h in
-           let sp = spec_config st ep h in
-           if foreign st.ncd then nontrivial := true;
-           (match r with
-            | Ok l ->
-              tag (if l = [genesis_id] then "c-genesis" else if List.length l > 1 then "c-ok-ambiguous" else "c-ok");
-              if foreign st.ncd && announced t st.ncd ep h = [] then tag "c-fallback-past-competing-fork"
-            | Err c -> tag "c-err"
-            | _ -> tag "c-model-hang");
-           (tok_of r, (fun o -> List.mem o (List.map (fun d -> pre ^ "ok." ^ hex_of_n d) sp)))
-         | _ -> fail "bad query %s" q)
-      | _ -> fail "bad query %s" q) (lst ql) in
-    let otoks = split_ws obs in
-    let npre = List.length pre_toks in
     let why = ref [] in
     let eq = ref true in
+    let model_toks = ref [] in
+    let otoks = split_ws obs in
+    let qs = lst ql in
     if obs = "hang" then begin
-      why := ["hang: a lookup did not return"]; eq := !hang
-    end else if !hang then begin eq := false end
-    else if List.length otoks <> npre + List.length queries then begin
+      (* the repaired model never runs out of fuel (C26_epoch_data): a hang is a violation *)
+      why := ["hang: a lookup did not return"]; eq := false
+    end else if List.length otoks <> npre + List.length qs then begin
       why := ["shape"]; eq := false
     end else begin
-      List.iteri (fun i o ->
-        if i < npre then begin
+      List.iteri (fun i o -> if i < npre then begin
           if o <> List.nth pre_toks i then begin
             eq := false;
-            (* the announcement bookkeeping (target epoch on the block's own chain) is part of the property *)
-            why := (Printf.sprintf "store[%d]: %s expected %s" i o (List.nth pre_toks i)) :: !why end
-        end else begin
-          let (acc, spec) = List.nth queries (i - npre) in
-          if not (List.mem o acc) then eq := false;
-          if not (spec o) then why := (Printf.sprintf "query[%d]=%s violates the spec (model: %s)" (i - npre) o (String.concat "|" acc)) :: !why
-        end) otoks
+            why := (Printf.sprintf "store[%d]: %s expected %s" i o (List.nth pre_toks i)) :: !why end end) otoks;
+      let oq = List.filteri (fun i _ -> i >= npre) otoks in
+      let restarted = ref false and skipped = ref false in
+      List.iteri (fun qi (q, o) ->
+        let st = (!xs).x_s in
+        let bad fmt = Printf.ksprintf (fun m -> why := (Printf.sprintf "query[%d]=%s %s" qi o m) :: !why) fmt in
+        let foreign m ep h = (match alookup m ep with
+          | Some entries -> List.exists (fun (b, _) -> not (on_chain t h b)) entries
+          | None -> false) in
+        match String.split_on_char ',' q with
+        | ["R"; _; _] ->
+          tag "restart"; restarted := true;
+          if !skipped then tag "restart-after-skip";
+          let x' = x_restart !xs in
+          if List.exists (fun (_, l) -> List.length l > 1) x'.x_s.ned || List.exists (fun (_, l) -> List.length l > 1) x'.x_s.ncd
+          then (tag "restart-with-competing-announcements"; nontrivial := true);
+          let m = "R/ME=" ^ dump x'.x_s.ned ^ "/MC=" ^ dump x'.x_s.ncd in
+          model_toks := m :: !model_toks;
+          (* every announcement that was persisted must be back in memory, under its epoch and block *)
+          if o <> m then begin eq := false; bad "restored maps differ from the persisted announcements %s" m end;
+          xs := x'
+        | [("E" | "C") as k; sc; h] ->
+          let h = parse_hdr h in
+          if not (valid_hdr t h) then fail "C26: bad header in %s" q;
+          let (se, ce) = match String.split_on_char '.' sc with
+            | [a; b] -> (n_of_hex a, n_of_hex b) | _ -> fail "bad skipped query %s" q in
+          skipped := true;
+          let (ores, odump) = match split_slash o with [a; b] -> (a, b) | _ -> (o, "") in
+          let isE = (k = "E") in
+          let r = if isE then get_skipped_epoch_data fixed fuel st se ce h
+                  else get_skipped_config fixed true fuel st se ce h in
+          let dump_of (s' : est) = if isE then "ME=" ^ dump s'.ned else "MC=" ^ dump s'.ncd in
+          if foreign (if isE then st.ned else st.ncd) se h then nontrivial := true;
+          (match r with
+           | Ok alts ->
+             tag (if isE then "E-ok" else "C-ok");
+             if List.exists (fun (_, (s' : est)) -> s'.dbe <> st.dbe || s'.dbc <> st.dbc) alts then tag (k ^ "-moved-in-database")
+             else if List.exists (fun (_, (s' : est)) -> s'.ned <> st.ned || s'.ncd <> st.ncd) alts then tag (k ^ "-moved-in-memory")
+             else tag (k ^ "-genesis-or-fallback");
+             let acc = List.map (fun (d, s') -> ("ok." ^ hex_of_n d ^ "/" ^ dump_of s', s')) alts in
+             model_toks := String.concat "|" (List.map fst acc) :: !model_toks;
+             (match List.find_opt (fun (tk, _) -> tk = o) acc with
+              | Some (_, s') -> xs := { !xs with x_s = s' }
+              | None -> eq := false; xs := { !xs with x_s = snd (List.hd acc) })
+           | Err c ->
+             tag (if isE then "E-err" else "C-err");
+             let m = List.hd (tok_of_out "" hang (Err c)) ^ "/" ^ dump_of st in
+             model_toks := m :: !model_toks;
+             if o <> m then eq := false
+           | _ -> hang := true; eq := false; model_toks := "hang" :: !model_toks);
+          (* specification: the skipped lookup answers like the plain lookup for the skipped epoch *)
+          if isE then (match spec_epoch_data st se h with
+            | Some l -> if not (List.mem ores (List.map (fun d -> "ok." ^ hex_of_n d) l)) then
+                bad "GetSkippedEpochDataRaw: expected one of %s" (String.concat "|" (List.map hex_of_n l))
+            | None -> if not (is_err "" ores) then bad "GetSkippedEpochDataRaw: expected an error")
+          else begin
+            let sp = spec_config st se h in
+            if not (List.mem ores (List.map (fun d -> "ok." ^ hex_of_n d) sp)) then
+              bad "GetSkippedConfigData: expected one of %s" (String.concat "|" (List.map hex_of_n sp));
+            if foreign st.ncd se h && announced t st.ncd se h = [] && alookup st.dbc se = None then tag "C-fallback-past-competing-fork"
+          end;
+          ignore odump
+        | [k; e; h] ->
+          let h = parse_hdr h in
+          if not (valid_hdr t h) then fail "C26: bad header in %s" q;
+          let nat = (e = "n") || k = "g" in
+          let ep = if nat then epoch_of t st.e_len h else n_of_hex e in
+          let pre = if nat && k <> "g" then hex_of_n ep ^ "@" else "" in
+          tag (match h with Imp _ -> "hdr-imported" | Fresh _ -> "hdr-not-imported");
+          let after = (if !restarted then "-after-restart" else "") in
+          (match k with
+           | "g" -> tag "q-epoch";
+             let m = "ep." ^ hex_of_n ep in
+             model_toks := m :: !model_toks;
+             if o <> m then begin eq := false; bad "GetEpochForBlock: expected %s" m end
+           | "e" ->
+             let r = get_epoch_data fixed fuel st ep h in
+             let sp = spec_epoch_data st ep h in
+             if foreign st.ned ep h then nontrivial := true;
+             (match r with
+              | Ok l -> tag ((if List.length l > 1 then "e-ok-ambiguous" else "e-ok") ^ after);
+                        if foreign st.ned ep h then tag ("e-ok-with-competing-fork" ^ after)
+              | Err c -> tag (if int_of_nat c = 1 then "e-err-epoch-not-in-memory" else "e-err-not-on-own-fork")
+              | _ -> tag "e-model-hang");
+             let acc = tok_of_out pre hang r in
+             model_toks := String.concat "|" acc :: !model_toks;
+             if not (List.mem o acc) then eq := false;
+             (match sp with
+              | Some l -> if not (List.mem o (List.map (fun d -> pre ^ "ok." ^ hex_of_n d) l)) then
+                  bad "violates the spec (model: %s)" (String.concat "|" acc)
+              | None -> if not (is_err pre o) then bad "violates the spec: expected an error (model: %s)" (String.concat "|" acc))
+           | "c" ->
+             let r = get_config fixed fuel st ep h in
+             let sp = spec_config st ep h in
+             if foreign st.ncd ep h then nontrivial := true;
+             (match r with
+              | Ok l ->
+                tag ((if l = [genesis_id] then "c-genesis" else if List.length l > 1 then "c-ok-ambiguous" else "c-ok") ^ after);
+                if foreign st.ncd ep h && announced t st.ncd ep h = [] then tag "c-fallback-past-competing-fork"
+              | Err _ -> tag "c-err"
+              | _ -> tag "c-model-hang");
+             let acc = tok_of_out pre hang r in
+             model_toks := String.concat "|" acc :: !model_toks;
+             if not (List.mem o acc) then eq := false;
+             if not (List.mem o (List.map (fun d -> pre ^ "ok." ^ hex_of_n d) sp)) then
+               bad "violates the spec (model: %s)" (String.concat "|" acc)
+           | _ -> fail "bad query %s" q)
+        | _ -> fail "bad query %s" q) (List.combine qs oq);
+      if !hang then eq := false
     end;
     let prop = (!why = []) in
-    let model_s = String.concat " " (pre_toks @ List.map (fun (acc, _) -> String.concat "|" acc) queries) in
+    let model_s = String.concat " " (pre_toks @ List.rev !model_toks) in
     { prop_ok = prop; model_eq = !eq; nontrivial = !nontrivial; finding = "-";
       tags = String.concat "," (List.sort compare (Hashtbl.fold (fun k () a -> k :: a) tags []));
       detail = (if prop && !eq then "" else Printf.sprintf "%s model=%s" (String.concat "; " (List.rev !why)) model_s) }
